@@ -144,4 +144,7 @@ def families(tier, seed):
     return [Family("capacities", scripts(rng, tier), monitor=monitor),
             Family("forged-lengths-small-capacity", C10.forged_scripts(rng, tier), monitor=guard_monitor),
             Family("malformed-small-capacity", C10.malformed_scripts(rng, tier)[: (12 if tier == "quick" else 150)], monitor=guard_monitor),
+            # header-extension walks that end exactly at (or try to run past) out + *out_len: ragged last elements, empty payload,
+            # no trailer, exact-size output (a walk that is one or two octets too lenient writes at out[len], out[len+1])
+            Family("xtn-walk-at-the-end", C10.xtn_edge_scripts(random.Random(seed * 1000 + 211), tier), monitor=guard_monitor),
             Family("gcm-capacities", with_aead(scripts, random.Random(seed * 1000 + 111), tier, n=(8 if tier == "quick" else 120)), monitor=monitor, config="openssl")]
